@@ -607,6 +607,12 @@ def drv_cache(tier, nseq):
                 e = _relerr(np, hist[i], fresh)
                 if not e <= 1e-9:
                     bad.append(dict(call_index=i, call=list(map(str, c)), in_sequence=hist[i].tolist(), fresh=fresh.tolist()))
+            # state that survives Godambe.cache.clear(): the default-argument objects of the functions called (a default list extended in
+            # place would carry the number of bootstraps of one call into the next - and into the "fresh" calls above alike)
+            for fobj in (G.get_godambe, G.GIM_uncert, G.FIM_uncert, G.LRT_adjust, G.Wald_stat, G.score_stat, G.get_grad, G.get_hess):
+                for dv in (fobj.__defaults__ or ()):
+                    if isinstance(dv, (list, dict, set)) and len(dv) != 0:
+                        bad.append(dict(default_argument_modified=fobj.__name__, now=repr(dv)[:80]))
             return not bad, dict(bad=bad[:3])
         d_.check((s, k, tuple(nested)), run, info, 'result-depends-on-call-history-via-Godambe.cache-key')
     return d_.results()
